@@ -39,7 +39,7 @@ import pandas as pd
 from hypothesis import strategies as st
 
 from vf import redcommon as R
-from vf.learners import ExactTable, ExactTableRegressor
+from vf.learners import ExactTable, ExactTableRegressor, ExactTableW
 from vf.runner import PropertyViolation, Sub
 
 PROPERTY = "C09"
@@ -134,8 +134,9 @@ def _check_parity(case, distinct):
     y = R.build_vector(case, case["y_kind"], case["y"])
     sf = R.build_vector(case, case["sf_kind"], R.group_labels(case))
     grid_size, grid_limit, cw = case["grid_size"], case["grid_limit"], case["cw"]
-    gs = GridSearch(ExactTable(tie=case.get("tie", 0)), R.build_moment(case), constraint_weight=cw,
-                    grid_size=grid_size, grid_limit=grid_limit)
+    swn = bool(case.get("swn"))
+    gs = GridSearch((ExactTableW if swn else ExactTable)(tie=case.get("tie", 0)), R.build_moment(case), constraint_weight=cw,
+                    grid_size=grid_size, grid_limit=grid_limit, **({"sample_weight_name": "w"} if swn else {}))
     gs.fit(X, y, sensitive_features=sf)
 
     P = R.Problem(case)
